@@ -71,13 +71,15 @@ func (c *c20Cmp) eq(a, b reflect.Value, path string) error {
 			return err
 		}
 		if info.IsAminoMarshaler {
-			ra, err := c20Repr(a)
-			if err != nil {
-				return fmt.Errorf("%s: MarshalAmino: %v", path, err)
-			}
-			rb, err := c20Repr(b)
-			if err != nil {
-				return fmt.Errorf("%s: MarshalAmino: %v", path, err)
+			ra, erra := c20Repr(a)
+			rb, errb := c20Repr(b)
+			if erra != nil || errb != nil {
+				// values outside the domain of MarshalAmino (e.g. the zero
+				// Param): compare the Go values themselves.
+				if (erra != nil) == (errb != nil) && reflect.DeepEqual(a.Interface(), b.Interface()) {
+					return nil
+				}
+				return fmt.Errorf("%s: MarshalAmino failed (%v / %v) and the Go values differ: %+v vs %+v", path, erra, errb, a.Interface(), b.Interface())
 			}
 			return c.eq(ra, rb, path+".<repr>")
 		}
@@ -142,8 +144,17 @@ func (c *c20Cmp) eq(a, b reflect.Value, path string) error {
 	return nil
 }
 
-// c20Repr calls v.MarshalAmino() by reflection.
-func c20Repr(v reflect.Value) (reflect.Value, error) {
+// c20Repr calls v.MarshalAmino() by reflection (a panic becomes an error).
+func c20Repr(v reflect.Value) (out reflect.Value, err error) {
+	defer func() {
+		if p := recover(); p != nil {
+			err = fmt.Errorf("MarshalAmino panicked: %v", p)
+		}
+	}()
+	return c20Repr0(v)
+}
+
+func c20Repr0(v reflect.Value) (reflect.Value, error) {
 	var m reflect.Value
 	if v.CanAddr() {
 		m = v.Addr().MethodByName("MarshalAmino")
